@@ -127,7 +127,7 @@ const RUNS: usize = 5;
 fn check(c: &Case, modes: &[usize], evals: &mut u64) -> Result<usize, (String, String)> {
     let dir = fresh_dir("c05");
     let rp = dir.join("r.guard");
-    let dp = dir.join("template.json");
+    let dp = dir.join(if c.data.trim_start().starts_with(['{', '[']) { "template.json" } else { "template.yaml" });
     let sp = dir.join("r_tests.json");
     write_file(&rp, &c.rules);
     write_file(&dp, &c.data);
@@ -258,7 +258,15 @@ fn gen_case(u: &mut Choices, sz: Size) -> (Case, bool) {
         exps.join(", ")
     );
     let rich = names.len() >= 3;
-    (Case { rules, data: doc.to_json(), spec }, rich)
+    // the data file: compact JSON, or (half of the cases) a multi-line layout, so that the source
+    // excerpts of the console reporter differ from resource to resource
+    let data = if u.chance(1, 2) {
+        doc.to_json()
+    } else {
+        let st = *u.pick(&[crate::docw::Style::JsonPretty, crate::docw::Style::YamlBlock, crate::docw::Style::YamlBlock]);
+        crate::docw::write_doc(&doc, st, u, true).text
+    };
+    (Case { rules, data, spec }, rich)
 }
 
 fn case_json(c: &Case, modes: &[usize]) -> J {
